@@ -183,6 +183,7 @@ func (w *World) resolveType(te *TypeExpr, ctx *ResCtx) *SType {
 type binding struct {
 	term string
 	typ  *SType
+	boxT types.Type // non-nil: term is a reference to a captured variable of this type; the value lives in the box array
 }
 
 // Env is the evaluation environment of a spec expression.
@@ -260,6 +261,9 @@ func (e *Env) Eval(x Expr) (string, *SType) {
 		return "0", &SType{IsNil: true}
 	case *EIdent:
 		if b, ok := e.vars[x.Name]; ok {
+			if b.boxT != nil {
+				return "(select " + e.arr(e.w.boxArr(b.boxT), e.cur) + " " + b.term + ")", b.typ
+			}
 			return b.term, b.typ
 		}
 		if e.globals != nil {
@@ -301,7 +305,7 @@ func (e *Env) Eval(x Expr) (string, *SType) {
 	case *ELet:
 		v, tv := e.Eval(x.Val)
 		name := fmt.Sprintf("let!%s!%d", x.Name, e.vc.fresh())
-		body, tb := e.with(map[string]binding{x.Name: {name, tv}}).Eval(x.Body)
+		body, tb := e.with(map[string]binding{x.Name: {term: name, typ: tv}}).Eval(x.Body)
 		return "(let ((" + name + " " + v + ")) " + body + ")", tb
 	case *EField:
 		// package-qualified identifier?
@@ -348,7 +352,7 @@ func (e *Env) Eval(x Expr) (string, *SType) {
 		for _, v := range x.Vars {
 			ty := e.w.resolveType(v.Type, e.ctx)
 			name := fmt.Sprintf("%s!q%d", v.Name, e.vc.fresh())
-			vars[v.Name] = binding{name, ty}
+			vars[v.Name] = binding{term: name, typ: ty}
 			decl = append(decl, "("+name+" "+ty.Sort(S)+")")
 		}
 		ne := e.with(vars)
@@ -561,6 +565,27 @@ func (e *Env) evalCall(x *ECall) (string, *SType) {
 		ks := ty.Set.Sort(S)
 		e.vc.needCard(ks)
 		return "(card!" + sanitize(ks) + " " + t + ")", stInt
+	case "addr":
+		// addr(v): the reference of a captured variable (closures)
+		id, ok := x.Args[0].(*EIdent)
+		if !ok {
+			e.fail("addr() expects a captured variable name")
+		}
+		b, ok := e.vars[id.Name]
+		if !ok || b.boxT == nil {
+			e.fail("addr(%s): not a captured variable", id.Name)
+		}
+		return b.term, &SType{Go: types.NewPointer(b.boxT)}
+	case "deref":
+		t, ty := e.Eval(x.Args[0])
+		p, ok := types.Unalias(ty.Go).Underlying().(*types.Pointer)
+		if !ok {
+			e.fail("deref of non-pointer %s", ty)
+		}
+		if _, isStruct := p.Elem().Underlying().(*types.Struct); isStruct {
+			e.fail("deref of pointer to struct: use field access")
+		}
+		return "(select " + e.arr(e.w.boxArr(p.Elem()), e.cur) + " " + t + ")", &SType{Go: p.Elem()}
 	case "isnil":
 		t, ty := e.Eval(x.Args[0])
 		if _, ok := types.Unalias(ty.Go).Underlying().(*types.Slice); ok {
@@ -656,7 +681,7 @@ func (e *Env) evalCall(x *ECall) (string, *SType) {
 				lets = append(lets, "("+n+" "+t+")")
 				t = n
 			}
-			vars[fd.Params[i].Name] = binding{t, pt}
+			vars[fd.Params[i].Name] = binding{term: t, typ: pt}
 		}
 		ne := &Env{w: e.w, vc: e.vc, cur: e.cur, old: e.old, pre: e.pre, vars: vars, ctx: fctx, seen: e.seen, depth: e.depth + 1, record: e.record}
 		body, _ := ne.Eval(fd.Body)
@@ -707,7 +732,7 @@ func (w *World) opaqueInfo(fd *FunDef, fctx *ResCtx) *readSet {
 	w.opaqueRS[fd.Name] = rs
 	vars := map[string]binding{}
 	for _, p := range fd.Params {
-		vars[p.Name] = binding{"x!" + p.Name, w.resolveType(p.Type, fctx)}
+		vars[p.Name] = binding{term: "x!" + p.Name, typ: w.resolveType(p.Type, fctx)}
 	}
 	tmp := NewFuncVC(w, "dry")
 	env := &Env{w: w, vc: tmp, cur: &HeapState{vers: map[string]string{}, next: "next!dry"}, vars: vars, ctx: fctx, record: rs}
